@@ -129,6 +129,25 @@ def plan_dump(schema, rm, mi, desc, lines, meta, res, cap=24, modes=walk.MODES, 
         ext_vectors = [dict(zip(paths, v)) for v in itertools.product(ext, repeat=len(paths))]
         if len(ext_vectors) > 81:
             ext_vectors = ext_vectors[:81]
+        # one level at a time grown to a wire blockLength of 300 (beyond 8 bits: the value no longer fits a narrower
+        # numInGroup / index type), where the level's blockLength header member can carry it; all other levels unchanged
+        from ..model.codec import psize
+
+        def bl_slot(path):
+            if not path:
+                return rm.header.slot("blockLength"), rm.level
+            rl, g = rm.level, None
+            for nm in path:
+                g = [x for x in rl.groups if x.name == nm][0]
+                rl = g.level
+            return g.dim.slot("blockLength"), rl
+
+        for pth in paths:
+            slot, rl = bl_slot(pth)
+            if psize(slot.prim) >= 2 and not slot.prim.startswith("int8") and rl.block_length < 300:
+                v = {q: 0 for q in paths}
+                v[pth] = 300 - rl.block_length
+                ext_vectors.append(v)
     res.counters["shapes"] = res.counters.get("shapes", 0) + 1
     for shape in values.size_vectors(rm.level, gs, dl):
         for seed in seeds:
